@@ -258,4 +258,36 @@ end
 def mirror (pre : Bytes) (p : List Prog) : Option (List Prog) :=
   normL p (if pre.isEmpty then [] else [.bytes pre])
 
+
+/-! ## String reads on arbitrary input (every Read*/Skip/CopyBytes/Empty of string.go) -/
+
+inductive ReadOp where
+  | uint (w : Nat)          -- ReadUint8/16/24/32/48/64
+  | bytes (n : Int)         -- ReadBytes(&out, n)
+  | copy (n : Nat)          -- CopyBytes(make([]byte, n))
+  | skip (n : Int)          -- Skip(n)
+  | lp (k : Nat)            -- ReadUint8/16/24LengthPrefixed
+  | empty                   -- Empty()
+
+/-- `String.read(n)` with Go's `n < 0` guard -/
+def readI (n : Int) (s : Bytes) : Option (Bytes × Bytes) :=
+  if n < 0 then none else read n.toNat s
+
+/-- one read: the value reported (as bytes; Empty: one byte 0/1) and the remaining string -/
+def runRead : ReadOp → Bytes → Option (Bytes × Bytes)
+  | .uint w, s => read w s
+  | .bytes n, s => readI n s
+  | .copy n, s => read n s
+  | .skip n, s => (readI n s).map fun (_, r) => ([], r)
+  | .lp k, s => readLP k s
+  | .empty, s => some ([if s.isEmpty then 1 else 0], s)
+
+/-- run reads until the first failure: (values so far, index of the failing op or none, rest) -/
+def runReads : List ReadOp → Bytes → Nat → List Bytes → List Bytes × Option Nat × Bytes
+  | [], s, _, acc => (acc.reverse, none, s)
+  | op :: ops, s, i, acc =>
+    match runRead op s with
+    | some (v, r) => runReads ops r (i + 1) (v :: acc)
+    | none => (acc.reverse, some i, s)
+
 end XC.C22
